@@ -1,5 +1,6 @@
 import A2lVerif.Driver.ItemList
 import A2lVerif.Driver.Limits
+import A2lVerif.Driver.Encoding
 /-! `a2lmodel`: one request per line on stdin, one canonical answer per line on stdout. -/
 open A2l
 
@@ -7,6 +8,8 @@ def dispatch (line : String) : String :=
   match (line.trimAscii.toString.splitOn " ").filter (· ≠ "") with
   | "il" :: args => IL.handle args
   | "lim" :: args => Lim.handle args
+  | "dec" :: args => Enc.handle "dec" args
+  | "load" :: args => Enc.handle "load" args
   | _ => "bad-request"
 
 partial def loop (h : IO.FS.Stream) (out : IO.FS.Stream) : IO Unit := do
